@@ -1,9 +1,9 @@
-(** C10, the deterministic reading of a mutex tree: the children of the root of
-    [with_transitive_mutex] carry pairwise different constraints, all mutually
-    exclusive with the first one; for the port-graph decomposition (first
-    constraint IsConnected or HasNodeWeight) no host and no injective binding
-    satisfies two of them — so taking only the first satisfied transition of the
-    root (what the builder does when the tree sets make_det) loses nothing. *)
+(** C10, mutual exclusion at the root of a mutex tree (what make_det announces):
+    the children of the root of [with_transitive_mutex] carry pairwise different
+    constraints, all mutually exclusive with the first one; for the port-graph
+    decomposition (first constraint IsConnected or HasNodeWeight) no host and no
+    injective binding satisfies two of them — so even taking only the first
+    satisfied transition of the root (Spec/TreeDet.v) loses nothing. *)
 From PM Require Import Model.Prelude Model.Domain Model.Constraint Model.CTree Model.BindMaps Model.DomString
   Model.DomPGKeys Model.DomPG Proofs.TreeProofs Proofs.TreeDomains Proofs.RunSound Proofs.PGTreeProofs Proofs.PGLawful.
 
